@@ -438,3 +438,40 @@ Proof.
   split; [exact A|]. split; [exact B|]. split; [exact C|]. split; [exact D|].
   exact block_law_hypotheses_satisfiable.
 Qed.
+
+(* ------------------------------------------------------------------ *)
+(* [RigidP.rotation_law_overlap] with the two extra hypotheses of the block theorem written in: what is PROVED. *)
+Definition rotation_law_overlap_wf {F : Type} (K : Fops F) : Prop :=
+  (forall x, fapx K x = x) -> (forall x y, fexp K (fadd K x y) = fmul K (fexp K x) (fexp K y)) ->
+  (forall c, dfnorm K c <> f0 K) ->
+  fadd K (f1 K) (f1 K) <> f0 K ->                                               (* extra 1 *)
+  forall R, orthogonal K R -> forall la lb, exists Ma Mb : comp -> comp -> F,
+    mono_rep K R la Ma /\ mono_rep K R lb Mb /\
+    forall sa sb, s_l sa = la -> s_l sb = lb -> s_comps sa = [] -> s_comps sb = [] ->
+      wf_coeffs sa -> wf_coeffs sb ->                                           (* extra 2 *)
+      (forall a b, In a (s_exps sa) -> In b (s_exps sb) -> fadd K a b <> f0 K) ->
+      forall ma mb ja jb, (ma < nseg sa)%nat -> (mb < nseg sb)%nat ->
+        (ja < length (default_comps la))%nat -> (jb < length (default_comps lb))%nat ->
+        let cmp l i := nth i (default_comps l) (0, 0, 0)%nat in
+        fmul K (fmul K (dfnorm K (cmp la ja)) (dfnorm K (cmp lb jb)))
+          (nth jb (nth mb (nth ja (nth ma (overlap_block K sa sb) []) []) []) (f0 K))
+        = FNum.fsum K (map (fun ia => FNum.fsum K (map (fun ib =>
+            fmul K (fmul K (fmul K (fmul K (Ma (cmp la ia) (cmp la ja)) (Mb (cmp lb ib) (cmp lb jb)))
+                                   (dfnorm K (cmp la ia))) (dfnorm K (cmp lb ib)))
+              (nth ib (nth mb (nth ia (nth ma
+                 (overlap_block K (rot_shell K R sa) (rot_shell K R sb)) []) []) []) (f0 K)))
+            (seq 0 (length (default_comps lb))))) (seq 0 (length (default_comps la)))).
+
+Theorem rotation_law_overlap_wf_holds {F : Type} (K : Fops F) : is_field K -> rotation_law_overlap_wf K.
+Proof.
+  intros Kf Hapx Hexp Hdf H2 R HO la lb.
+  exact (overlap_block_rotation_law K Kf Hexp Hapx H2 Hdf R HO la lb).
+Qed.
+
+(* the stated law of RigidP is the same sentence without "extra 1" and "extra 2" *)
+Lemma rotation_law_overlap_implies_wf {F : Type} (K : Fops F) : rotation_law_overlap K -> rotation_law_overlap_wf K.
+Proof.
+  intros H Hapx Hexp Hdf _ R HO la lb. destruct (H Hapx Hexp Hdf R HO la lb) as (Ma & Mb & A & B & C).
+  exists Ma, Mb. split; [exact A|]. split; [exact B|].
+  intros sa sb Hla Hlb Hca Hcb _ _. exact (C sa sb Hla Hlb Hca Hcb).
+Qed.
